@@ -95,6 +95,11 @@ class Prop:
                 try:
                     impl.M.TagBlock.create(**{f: first})
                     raw = impl.M.TagBlock.create(**{f: second})
+                    if impl.M.TagBlock.create_str(**{f: second, 'source_station': 'st'}).encode() != \
+                            impl.M.TagBlock.create(**{f: second, 'source_station': 'st'}):
+                        ctx.fail('TagBlock.create_str differs from TagBlock.create', {'cmd': 'typed', 'field': f,
+                                 'first': repr(first), 'second': repr(second)}, 'the same tag block as str', '',
+                                 {'kind': 'rt-typed', 'field': f})
                     o = impl.step('tagblock.parse ' + impl.hx(raw))
                 except Exception as e:  # noqa
                     ctx.fail('TagBlock.create raised on a non-string value', {'cmd': 'typed', 'field': f,
